@@ -36,8 +36,6 @@ package language
 
 //@ func evalNumberInfixExpression
 //@   requires typeis(left, "*Number") && typeis(right, "*Number")
-//@ func evalStringInfixExpression
-//@   requires typeis(left, "*String") && typeis(right, "*String")
 //@ func evalBinaryInfixExpression
 //@   requires typeis(left, "*Binary") && typeis(right, "*Binary")
 
@@ -45,8 +43,11 @@ package language
 
 //@ func attributeExists
 //@   requires len(args) == 1 && forall j int :: 0 <= j && j < len(args) ==> args[j] != nil
+// C06: an attribute exists unless its path is undefined - a NULL-typed attribute exists
+//@   ensures[C06] Truth(result, !Undef(args[0]))
 //@ func attributeNotExists
 //@   requires len(args) == 1 && forall j int :: 0 <= j && j < len(args) ==> args[j] != nil
+//@   ensures[C06] Truth(result, Undef(args[0]))
 //@ func attributeType
 //@   requires len(args) == 2 && forall j int :: 0 <= j && j < len(args) ==> args[j] != nil
 //@ func beginsWith
@@ -145,3 +146,70 @@ package language
 //@ closedfunc language.(*Parser).parseIdentifier
 //@ closedfunc language.(*Parser).parseInfixExpression
 //@ closedfunc language.attributeExists
+
+// ---- C06: what each node kind computes from evaluated operands --------------------------------------------
+// The truth values are the two shared objects TRUE and FALSE (never assigned after package initialisation).
+//@ global TRUE != nil && FALSE != nil && TRUE != FALSE && TRUE.Value && !FALSE.Value && UNDEFINED != nil && UNDEFINED.IsUndefined
+
+// Undef: the operand denotes a missing attribute
+//@ pred Undef(o Object) := o == nil || (typeis(o, "*Null") && o.(*Null).IsUndefined)
+// IsT / IsF: the object is the shared truth value
+//@ pred IsT(o Object) := typeis(o, "*Boolean") && o.(*Boolean) == TRUE
+//@ pred IsF(o Object) := typeis(o, "*Boolean") && o.(*Boolean) == FALSE
+//@ pred Truth(o Object, b bool) := (b ==> IsT(o)) && (!b ==> IsF(o))
+
+//@ func nativeBoolToBooleanObject
+//@   inline
+//@ func isUndefined
+//@   inline
+//@ func isError
+//@   inline
+//@ func newError
+//@   inline
+
+// NOT: flips the two truth values, anything else is an error
+//@ func evalBangOperatorExpression
+//@   ensures[C06] IsT(right) ==> IsF(result)
+//@   ensures[C06] IsF(right) ==> IsT(result)
+//@   ensures[C06] !IsT(right) && !IsF(right) ==> typeis(result, "*Error")
+
+// a missing operand: = is false, <> is true, every other comparison is false
+//@ func evalNullInfixExpression
+//@   ensures[C06] operator == "=" ==> Truth(result, !(Undef(left) || Undef(right)))
+//@   ensures[C06] operator == "<>" ==> Truth(result, Undef(left) || Undef(right))
+//@   ensures[C06] operator != "=" && operator != "<>" ==> IsF(result)
+
+// ordering exists only within one scalar type; values of different types are unequal
+//@ func evalStringInfixExpression
+//@   requires typeis(left, "*String") && typeis(right, "*String")
+//@   ensures[C06] operator == "=" ==> Truth(result, left.(*String).Value == right.(*String).Value)
+//@   ensures[C06] operator == "<>" ==> Truth(result, left.(*String).Value != right.(*String).Value)
+//@   ensures[C06] operator == "<" ==> Truth(result, left.(*String).Value < right.(*String).Value)
+//@   ensures[C06] operator == "<=" ==> Truth(result, left.(*String).Value <= right.(*String).Value)
+//@   ensures[C06] operator == ">" ==> Truth(result, left.(*String).Value > right.(*String).Value)
+//@   ensures[C06] operator == ">=" ==> Truth(result, left.(*String).Value >= right.(*String).Value)
+
+//@ func evalComparableInfixExpression
+//@   requires left != nil && right != nil
+//@   ensures[C06] (Undef(left) || Undef(right)) && operator == "=" ==> IsF(result)
+//@   ensures[C06] (Undef(left) || Undef(right)) && operator == "<>" ==> IsT(result)
+//@   ensures[C06] (Undef(left) || Undef(right)) && operator != "=" && operator != "<>" ==> IsF(result)
+//@   ensures[C06] !Undef(left) && !Undef(right) && tag(left) != tag(right) ==> Truth(result, operator == "<>")
+
+// AND / OR on truth values
+//@ func evalBooleanInfixExpression
+//@   requires Undef(left) || Undef(right) || (typeis(left, "*Boolean") && typeis(right, "*Boolean"))
+//@   ensures[C06] Undef(left) || Undef(right) ==> IsF(result)
+//@   ensures[C06] !Undef(left) && !Undef(right) && operator == "AND" ==> Truth(result, left.(*Boolean).Value && right.(*Boolean).Value)
+//@   ensures[C06] !Undef(left) && !Undef(right) && operator == "OR" ==> Truth(result, left.(*Boolean).Value || right.(*Boolean).Value)
+
+// IN: a missing left operand is in no list
+//@ func evalIn
+//@   partial
+//@   ensures[C06] Undef(val) && !typeis(result, "*Error") ==> IsF(result)
+
+// BETWEEN: a missing operand makes it false
+//@ func evalBetween
+//@   partial
+//@   ensures[C06] (Undef(val) || Undef(min) || Undef(max)) && !typeis(result, "*Error") ==> IsF(result)
+
